@@ -384,7 +384,7 @@ pub fn jobs(pn: u32, tier: Tier) -> Vec<Job> {
             }
             v.push(job("key-tree-look-churn-look", JobKind::Fixed { cases: key_period_cases(id, "tree", !q), stop_on_first: false }, Rule::any("two looks at one key with the slot it was found in turned over in between", &["sparse_observations", "reinsert_expired_key", "lookup_after_removal", "query_with_expired_copies"]), &[]));
             v.push(job("key-tree-sparse-observations", random(key_sparse_cases(id, "tree"), n(400, 12_000)), Rule::any("a history of >=600 operations in which observations are >=100 operations apart", &["sparse_observations"]), &["sparse_observations"]));
-            v.push(job("key-tree-deep", JobKind::Fixed { cases: key_deep_cases(id, !q, true, false), stop_on_first: false }, Rule::any("a structure with a root-to-leaf path of >= 33 nodes", &["height_ge_33"]), &["height_ge_33"]));
+            v.push(job("key-tree-deep", JobKind::Fixed { cases: key_deep_cases(id, !q, true, false), stop_on_first: false }, Rule::any("a structure with a root-to-leaf path of >= 33 nodes", &["height_ge_33"]), &[]));
             v.push(job("key-tree-huge", random(key_huge_cases(id, "tree", [20, 12, 12, 12, 0, 14, 0, 1], 270_000, false), n(3, 60)), Rule::any("a structure of >=4096 entries built by a bulk fill", &["stored_ge_4096"]), &["stored_ge_4096"]));
             v.push(job("key-tree-enum", JobKind::Enumerate { spec: if q { key_enum(id, "tree", 3, 2, 3, false, false, 400_000) } else { key_enum(id, "tree", 4, 2, 3, false, false, 1_500_000) } }, rule.clone(), &[]));
             v.push(job("key-tree-enum-last-ticks", JobKind::Enumerate { spec: key_enum_edge(id, "tree", 3, 2, 2, false, false, 1_500_000) }, rule, &[]));
@@ -412,9 +412,9 @@ pub fn jobs(pn: u32, tier: Tier) -> Vec<Job> {
             }
             v.push(job("key-tree-huge", random(key_huge_cases(id, "tree", [30, 8, 8, 8, 8, 16, 0, 1], 270_000, true), n(2, 40)), Rule::any("a structure of >=4096 entries built by a bulk fill", &["stored_ge_4096"]), &["stored_ge_4096"]));
             for fam in ["map", "set"] {
-                v.push(job(&format!("{}-tree-deep", fam), JobKind::Fixed { cases: ord_deep_cases(id, fam, "u64", !q), stop_on_first: false }, Rule::any("a structure with a root-to-leaf path of >= 33 nodes", &["height_ge_33"]), &["height_ge_33"]));
+                v.push(job(&format!("{}-tree-deep", fam), JobKind::Fixed { cases: ord_deep_cases(id, fam, "u64", !q), stop_on_first: false }, Rule::any("a structure with a root-to-leaf path of >= 33 nodes", &["height_ge_33"]), &[]));
             }
-            v.push(job("key-tree-deep", JobKind::Fixed { cases: key_deep_cases(id, !q, true, true), stop_on_first: false }, Rule::any("a structure with a root-to-leaf path of >= 33 nodes", &["height_ge_33"]), &["height_ge_33"]));
+            v.push(job("key-tree-deep", JobKind::Fixed { cases: key_deep_cases(id, !q, true, true), stop_on_first: false }, Rule::any("a structure with a root-to-leaf path of >= 33 nodes", &["height_ge_33"]), &[]));
             let krule = Rule::all("history with a lazy removal of a two-children node and of a black leaf", &["rm_two_children", "rm_black_leaf"]);
             v.push(job("key-tree-churn", random(key_cases(id, key_mix("tree", &[8, 16, 64], 12, 4, [40, 8, 8, 8, 8, 22, 1, 1], 0..=300, Some(0..=4))), n(6_000, 150_000)), krule.clone(), &["rm_two_children", "rm_black_leaf", "rm_red_leaf", "rm_one_child", "rotation_or_relink"]));
             v.push(job("key-tree-big", random(key_cases(id, key_mix("tree", &[300, 3000], 1500, 30, [50, 6, 6, 6, 6, 16, 0, 1], 300..=1500, Some(0..=600))), n(150, 4_000)), krule.clone(), &["height_ge_6", "arena_growth_x2"]));
@@ -435,7 +435,7 @@ pub fn jobs(pn: u32, tier: Tier) -> Vec<Job> {
             v.push(job("seg-hot-spots", random(seg_hot_cases(id, [14, 4, 2, 0, 1, 3, 1], 150..=700, false, None), n(400, 10_000)), rule.clone(), &["chunk_ge_65_entries"]));
             v.push(job("seg-look-churn-look", JobKind::Fixed { cases: seg_period_cases(id, !q), stop_on_first: false }, Rule::any("two looks at one key with the slot it was found in turned over in between", &["sparse_observations", "reinsert_expired_key", "lookup_after_removal", "query_with_expired_copies"]), &[]));
             v.push(job("seg-sparse-observations", random(seg_sparse_cases(id), n(300, 8_000)), Rule::any("a history of >=600 operations in which observations are >=100 operations apart", &["sparse_observations"]), &["sparse_observations"]));
-            v.push(job("seg-mass-expiry", random(seg_mass_expiry_cases(id), n(150, 4_000)), rule.clone(), &["chunk_ge_129_entries", "query_all_of_ge_128_list_expired"]));
+            v.push(job("seg-mass-expiry", random(seg_mass_expiry_cases(id), n(150, 4_000)), rule.clone(), &[]));
             v.push(job("seg-17-enum", JobKind::Enumerate { spec: seg_enum(id, if q { 2 } else { 3 }, 2, false, 3_000_000) }, Rule::any("transition with an expired copy stored or a dropped iterator", &["query_with_expired_copies", "iterator_dropped_midway"]), &[]));
             v.push(job("seg-17-enum-last-ticks", JobKind::Enumerate { spec: seg_enum(id, 2, 2, true, 3_000_000) }, Rule::any("transition with an expired copy stored or a dropped iterator", &["query_with_expired_copies", "iterator_dropped_midway"]), &[]));
             v.push(job("seg-32-all-pairs-x-3-times", JobKind::Fixed { cases: seg_pair_cases(id, true), stop_on_first: false }, Rule::any("every (insert range, query range) pair over the 32-point domain at t in {exp-1, exp, exp+1}", &["query_t_eq_exp"]), &[]));
@@ -453,7 +453,7 @@ pub fn jobs(pn: u32, tier: Tier) -> Vec<Job> {
             v.push(job(&format!("{}-tree-insertion-runs", fam), random(ord_runs_cases(id, fam, "tree", vals.clone(), [0, 6, 4, 0, 0, 0, 1, 0, 0, 0]), n(600, 15_000)), rule.clone(), &["run_ascending", "run_descending"]));
             v.push(job(&format!("{}-tree-look-churn-look", fam), JobKind::Fixed { cases: ord_period_cases(id, fam, "tree", !q), stop_on_first: false }, Rule::any("two looks at one key with the slot it was found in turned over in between", &["sparse_observations", "reinsert_expired_key", "lookup_after_removal", "query_with_expired_copies"]), &[]));
             v.push(job(&format!("{}-tree-sparse-observations", fam), random(ord_sparse_cases(id, fam, "tree", vals.clone()), n(400, 12_000)), Rule::any("a history of >=600 operations in which observations are >=100 operations apart", &["sparse_observations"]), &["sparse_observations"]));
-            v.push(job(&format!("{}-tree-deep", fam), JobKind::Fixed { cases: ord_deep_cases(id, fam, "u64", !q), stop_on_first: false }, Rule::any("a structure with a root-to-leaf path of >= 33 nodes", &["height_ge_33"]), &["height_ge_33"]));
+            v.push(job(&format!("{}-tree-deep", fam), JobKind::Fixed { cases: ord_deep_cases(id, fam, "u64", !q), stop_on_first: false }, Rule::any("a structure with a root-to-leaf path of >= 33 nodes", &["height_ge_33"]), &[]));
             v.push(job(&format!("{}-tree-huge", fam), random(ord_huge_cases(id, fam, "tree", vals.clone(), w, 270_000), n(3, 60)), Rule::any("a structure of >=4096 entries built by a bulk fill", &["stored_ge_4096"]), &["stored_ge_4096"]));
             if !q {
                 v.push(job(&format!("{}-tree-large", fam), random(ord_cases(id, ord_mix(fam, "tree", &vals, &[4096, 1_000_000], w, 0..=4000, 3)), 600), rule.clone(), &[]));
@@ -471,7 +471,7 @@ pub fn jobs(pn: u32, tier: Tier) -> Vec<Job> {
             v.push(job("key-tree-big-clear-big", random(key_clear_cases_sized(id, "tree", vec![300, 3000], 1500, 30, 100..=500), n(100, 3_000)), rule.clone(), &[]));
             v.push(job("key-tree-look-churn-look", JobKind::Fixed { cases: key_period_cases(id, "tree", !q), stop_on_first: false }, Rule::any("two looks at one key with the slot it was found in turned over in between", &["sparse_observations", "reinsert_expired_key", "lookup_after_removal", "query_with_expired_copies"]), &[]));
             v.push(job("key-tree-sparse-observations", random(key_sparse_cases(id, "tree"), n(600, 16_000)), Rule::any("a history of >=600 operations in which observations are >=100 operations apart", &["sparse_observations"]), &["sparse_observations"]));
-            v.push(job("key-tree-deep", JobKind::Fixed { cases: key_deep_cases(id, !q, true, false), stop_on_first: false }, Rule::any("a structure with a root-to-leaf path of >= 33 nodes", &["height_ge_33"]), &["height_ge_33"]));
+            v.push(job("key-tree-deep", JobKind::Fixed { cases: key_deep_cases(id, !q, true, false), stop_on_first: false }, Rule::any("a structure with a root-to-leaf path of >= 33 nodes", &["height_ge_33"]), &[]));
             v.push(job("key-tree-huge", random(key_huge_cases(id, "tree", [20, 4, 4, 4, 30, 14, 0, 1], 270_000, false), n(3, 60)), Rule::any("a structure of >=4096 entries built by a bulk fill", &["stored_ge_4096"]), &["stored_ge_4096"]));
             v.push(job("key-tree-enum", JobKind::Enumerate { spec: if q { key_enum(id, "tree", 3, 2, 3, true, false, 400_000) } else { key_enum(id, "tree", 4, 2, 3, true, false, 1_500_000) } }, rule.clone(), &[]));
             v.push(job("key-tree-enum-last-ticks", JobKind::Enumerate { spec: key_enum_edge(id, "tree", 3, 2, 2, true, false, 1_500_000) }, rule, &[]));
@@ -483,7 +483,7 @@ pub fn jobs(pn: u32, tier: Tier) -> Vec<Job> {
             v.push(job("key-export-medium", random(key_cases(id, key_mix("tree", &[16, 64], 20, 5, [40, 6, 6, 6, 6, 20, 1, 1], 0..=200, Some(0..=24))), n(5_000, 120_000)), rule.clone(), &req));
             v.push(job("key-export-big", random(key_cases(id, key_mix("tree", &[300, 3000], 1500, 30, [50, 5, 5, 5, 5, 16, 0, 1], 300..=1500, Some(0..=1600))), n(150, 4_000)), rule.clone(), &["height_ge_6", "export_after_free"]));
             v.push(job("key-export-big-clear-big", random(key_clear_cases_sized(id, "tree", vec![300, 3000], 1500, 30, 100..=500), n(100, 3_000)), rule.clone(), &[]));
-            v.push(job("key-export-deep", JobKind::Fixed { cases: key_deep_cases(id, !q, false, true), stop_on_first: false }, Rule::any("a structure with a root-to-leaf path of >= 33 nodes", &["height_ge_33"]), &["height_ge_33"]));
+            v.push(job("key-export-deep", JobKind::Fixed { cases: key_deep_cases(id, !q, false, true), stop_on_first: false }, Rule::any("a structure with a root-to-leaf path of >= 33 nodes", &["height_ge_33"]), &[]));
             v.push(job("key-export-huge", random(key_huge_cases(id, "both", [30, 6, 6, 6, 6, 18, 0, 1], 270_000, true), n(3, 60)), Rule::any("a structure of >=4096 entries built by a bulk fill", &["stored_ge_4096"]), &["stored_ge_4096"]));
             v.push(job("key-export-enum", JobKind::Enumerate { spec: if q { key_enum(id, "tree", 3, 2, 3, true, true, 400_000) } else { key_enum(id, "tree", 4, 2, 3, true, true, 1_500_000) } }, rule.clone(), &[]));
             v.push(job("key-export-enum-last-ticks", JobKind::Enumerate { spec: key_enum_edge(id, "tree", 3, 2, 2, true, true, 1_500_000) }, rule, &[]));
@@ -499,7 +499,7 @@ pub fn jobs(pn: u32, tier: Tier) -> Vec<Job> {
                 v.push(job(&format!("{}-tree-big-clear-big", fam), random(ord_clear_cases_sized(id, fam, "tree", vals.clone(), vec![300, 3000], 100..=500), n(80, 2_000)), rule.clone(), &[]));
                 v.push(job(&format!("{}-tree-look-churn-look", fam), JobKind::Fixed { cases: ord_period_cases(id, fam, "tree", !q), stop_on_first: false }, Rule::any("two looks at one key with the slot it was found in turned over in between", &["sparse_observations", "reinsert_expired_key", "lookup_after_removal", "query_with_expired_copies"]), &[]));
                 v.push(job(&format!("{}-tree-sparse-observations", fam), random(ord_sparse_cases(id, fam, "tree", vec!["u64", "string"]), n(300, 8_000)), Rule::any("a history of >=600 operations in which observations are >=100 operations apart", &["sparse_observations"]), &["sparse_observations"]));
-                v.push(job(&format!("{}-tree-deep", fam), JobKind::Fixed { cases: ord_deep_cases(id, fam, "u64", !q), stop_on_first: false }, Rule::any("a structure with a root-to-leaf path of >= 33 nodes", &["height_ge_33"]), &["height_ge_33"]));
+                v.push(job(&format!("{}-tree-deep", fam), JobKind::Fixed { cases: ord_deep_cases(id, fam, "u64", !q), stop_on_first: false }, Rule::any("a structure with a root-to-leaf path of >= 33 nodes", &["height_ge_33"]), &[]));
                 v.push(job(&format!("{}-tree-huge", fam), random(ord_huge_cases(id, fam, "tree", vec!["u64", "string"], [30, 14, 2, 0, 0, 20, 8, 12, 0, 0], 270_000), n(2, 30)), Rule::any("a structure of >=4096 entries built by a bulk fill", &["stored_ge_4096"]), &["stored_ge_4096"]));
                 v.push(job(&format!("{}-tree-enum", fam), JobKind::Enumerate { spec: ord_enum(id, fam, "tree", "u64", if q { 6 } else { 8 }, true, &[O_HSWEEP], 2_000_000) }, rule.clone(), &[]));
             }
@@ -517,7 +517,7 @@ pub fn jobs(pn: u32, tier: Tier) -> Vec<Job> {
             if !q {
                 v.push(job("set-tree-steps-large", random(ord_cases(id, ord_mix("set", "tree", &["u64", "bare"], &[4096], [60, 20, 0, 0, 0, 0, 0, 4, 10, 1], 0..=3000, 3)), 400), rule.clone(), &[]));
             }
-            v.push(job("set-tree-deep", JobKind::Fixed { cases: ord_deep_cases(id, "set", "u64", !q), stop_on_first: false }, Rule::any("a structure with a root-to-leaf path of >= 33 nodes", &["height_ge_33"]), &["height_ge_33"]));
+            v.push(job("set-tree-deep", JobKind::Fixed { cases: ord_deep_cases(id, "set", "u64", !q), stop_on_first: false }, Rule::any("a structure with a root-to-leaf path of >= 33 nodes", &["height_ge_33"]), &[]));
             v.push(job("set-tree-huge", random(ord_huge_cases(id, "set", "tree", vec!["u64", "bare"], [30, 18, 0, 0, 0, 0, 0, 6, 20, 1], 270_000), n(3, 50)), Rule::any("a structure of >=4096 entries built by a bulk fill", &["stored_ge_4096"]), &["stored_ge_4096"]));
             v.push(job("set-tree-enum", JobKind::Enumerate { spec: ord_enum(id, "set", "tree", "u64", if q { 6 } else { 8 }, true, &[O_STEPALL, O_WALK], 2_000_000) }, rule, &[]));
         }
@@ -547,9 +547,9 @@ pub fn jobs(pn: u32, tier: Tier) -> Vec<Job> {
                 v.push(job(&format!("map-{}-big-clear-big", coll), random(ord_clear_cases_sized(id, "map", coll, vec!["u64", "string"], vec![300, 3000], 100..=500), n(60, 2_000)), rule.clone(), &[]));
                 v.push(job(&format!("set-{}-big-clear-big", coll), random(ord_clear_cases_sized(id, "set", coll, vec!["u64", "string"], vec![300, 3000], 100..=500), n(60, 2_000)), rule.clone(), &[]));
             }
-            v.push(job("key-tree-deep", JobKind::Fixed { cases: key_deep_cases(id, !q, true, true), stop_on_first: false }, Rule::any("a structure with a root-to-leaf path of >= 33 nodes", &["height_ge_33"]), &["height_ge_33"]));
+            v.push(job("key-tree-deep", JobKind::Fixed { cases: key_deep_cases(id, !q, true, true), stop_on_first: false }, Rule::any("a structure with a root-to-leaf path of >= 33 nodes", &["height_ge_33"]), &[]));
             for fam in ["map", "set"] {
-                v.push(job(&format!("{}-tree-deep", fam), JobKind::Fixed { cases: ord_deep_cases(id, fam, "u64", !q), stop_on_first: false }, Rule::any("a structure with a root-to-leaf path of >= 33 nodes", &["height_ge_33"]), &["height_ge_33"]));
+                v.push(job(&format!("{}-tree-deep", fam), JobKind::Fixed { cases: ord_deep_cases(id, fam, "u64", !q), stop_on_first: false }, Rule::any("a structure with a root-to-leaf path of >= 33 nodes", &["height_ge_33"]), &[]));
             }
             for coll in ["tree", "list"] {
                 v.push(job(&format!("key-{}-huge", coll), random(key_huge_cases(id, coll, [30, 6, 6, 6, 8, 16, 0, 1], 270_000, true), n(2, 40)), Rule::any("a structure of >=4096 entries built by a bulk fill", &["stored_ge_4096"]), &["stored_ge_4096"]));
@@ -584,9 +584,9 @@ pub fn jobs(pn: u32, tier: Tier) -> Vec<Job> {
                 v.push(job(&format!("{}-tree-big-clear-big", fam), random(ord_clear_cases_sized(id, fam, "tree", vec!["u64"], vec![300, 3000], 100..=500), n(100, 3_000)), Rule::any("clear after arena growth", &["clear_after_growth"]), &[]));
             }
             for fam in ["map", "set"] {
-                v.push(job(&format!("{}-tree-deep", fam), JobKind::Fixed { cases: ord_deep_cases(id, fam, "u64", !q), stop_on_first: false }, Rule::any("a structure with a root-to-leaf path of >= 33 nodes", &["height_ge_33"]), &["height_ge_33"]));
+                v.push(job(&format!("{}-tree-deep", fam), JobKind::Fixed { cases: ord_deep_cases(id, fam, "u64", !q), stop_on_first: false }, Rule::any("a structure with a root-to-leaf path of >= 33 nodes", &["height_ge_33"]), &[]));
             }
-            v.push(job("key-tree-deep", JobKind::Fixed { cases: key_deep_cases(id, !q, true, true), stop_on_first: false }, Rule::any("a structure with a root-to-leaf path of >= 33 nodes", &["height_ge_33"]), &["height_ge_33"]));
+            v.push(job("key-tree-deep", JobKind::Fixed { cases: key_deep_cases(id, !q, true, true), stop_on_first: false }, Rule::any("a structure with a root-to-leaf path of >= 33 nodes", &["height_ge_33"]), &[]));
             for fam in ["map", "set"] {
                 v.push(job(&format!("{}-tree-huge", fam), random(ord_huge_cases(id, fam, "tree", vec!["u64"], w, 270_000), n(2, 40)), Rule::any("a structure of >=4096 entries built by a bulk fill", &["stored_ge_4096"]), &["stored_ge_4096"]));
             }
@@ -676,7 +676,7 @@ pub fn jobs(pn: u32, tier: Tier) -> Vec<Job> {
             v.push(job("seg-long-histories", random(seg_cases(id, SegMix { w: [50, 14, 8, 1, 8, 12, 4], len: 100..=600, thorough: !q, only_small: false }), n(400, 10_000)), Rule::all("a fully consumed query issued while >=1 expired copy was physically stored", &["c16_nontrivial"]), &["chunk_ge_17_entries"]));
             v.push(job("seg-insert-bursts", random(seg_cases(id, SegMix { w: [80, 3, 5, 0, 2, 12, 1], len: 200..=700, thorough: !q, only_small: false }), n(300, 8_000)), Rule::all("a fully consumed query issued while >=1 expired copy was physically stored", &["c16_nontrivial"]), &["query_ge_65_expired_copies"]));
             v.push(job("seg-hot-spots", random(seg_hot_cases(id, [14, 3, 2, 0, 2, 3, 1], 150..=700, false, None), n(400, 10_000)), Rule::all("a fully consumed query issued while >=1 expired copy was physically stored", &["c16_nontrivial"]), &["chunk_ge_65_entries"]));
-            v.push(job("seg-mass-expiry", random(seg_mass_expiry_cases(id), n(150, 4_000)), Rule::all("a fully consumed query issued while >=1 expired copy was physically stored", &["c16_nontrivial"]), &["chunk_ge_129_entries", "query_all_of_ge_128_list_expired"]));
+            v.push(job("seg-mass-expiry", random(seg_mass_expiry_cases(id), n(150, 4_000)), Rule::all("a fully consumed query issued while >=1 expired copy was physically stored", &["c16_nontrivial"]), &[]));
             v.push(job("seg-17-enum", JobKind::Enumerate { spec: seg_enum(id, if q { 2 } else { 3 }, 2, false, 3_000_000) }, Rule::all("a fully consumed query issued while >=1 expired copy was physically stored", &["c16_nontrivial"]), &[]));
             v.push(job("seg-17-enum-last-ticks", JobKind::Enumerate { spec: seg_enum(id, 2, 2, true, 3_000_000) }, Rule::all("a fully consumed query issued while >=1 expired copy was physically stored", &["c16_nontrivial"]), &[]));
         }
@@ -687,7 +687,7 @@ pub fn jobs(pn: u32, tier: Tier) -> Vec<Job> {
                 v.push(job(&format!("{}-tree-held-handles", fam), random(ord_cases(id, ord_mix(fam, "tree", &vals, &[16, 64, 300, 2000], w, 0..=150, 1)), n(8_000, 200_000)), rule.clone(), &["held_ge_2_across_insert"]));
                 v.push(job(&format!("{}-tree-held-handles-big", fam), random(ord_cases(id, ord_mix(fam, "tree", &vals, &[1000, 5000], [70, 2, 4, 0, 0, 4, 2, 1, 0, 0], 200..=700, 1)), n(100, 3_000)), rule.clone(), &["height_ge_6"]));
                 v.push(job(&format!("{}-tree-insertion-runs", fam), random(ord_runs_cases(id, fam, "tree", vals.clone(), [2, 0, 1, 0, 0, 1, 0, 0, 0, 0]), n(600, 15_000)), rule.clone(), &["run_ascending", "run_descending"]));
-                v.push(job(&format!("{}-tree-deep", fam), JobKind::Fixed { cases: ord_deep_cases(id, fam, "u64", !q), stop_on_first: false }, Rule::any("a structure with a root-to-leaf path of >= 33 nodes", &["height_ge_33"]), &["height_ge_33"]));
+                v.push(job(&format!("{}-tree-deep", fam), JobKind::Fixed { cases: ord_deep_cases(id, fam, "u64", !q), stop_on_first: false }, Rule::any("a structure with a root-to-leaf path of >= 33 nodes", &["height_ge_33"]), &[]));
                 v.push(job(&format!("{}-tree-huge", fam), random(ord_huge_cases(id, fam, "tree", vec!["u64", "string"], [60, 6, 10, 0, 0, 6, 2, 2, 0, 0], 270_000), n(3, 50)), Rule::any("a structure of >=4096 entries built by a bulk fill", &["stored_ge_4096"]), &["stored_ge_4096"]));
                 v.push(job(&format!("{}-tree-enum", fam), JobKind::Enumerate { spec: ord_enum(id, fam, "tree", "u64", if q { 6 } else { 8 }, false, &[], 2_000_000) }, rule.clone(), &[]));
             }
@@ -717,7 +717,7 @@ pub fn jobs(pn: u32, tier: Tier) -> Vec<Job> {
             let rule = Rule::all("export of a tree/list physically holding >=12 entries (the size at which the original over-allocation exceeded the bound)", &["export_cap_ge_12"]);
             v.push(job("export-size-ladder", JobKind::Fixed { cases: export_ladder(id, !q), stop_on_first: true }, rule.clone(), &["export_cap_ge_100"]));
             v.push(job("export-random-tree", random(key_cases(id, key_mix("tree", &[16, 64, 400], 40, 6, [60, 4, 4, 4, 4, 16, 1, 0], 0..=600, Some(0..=30))), n(3_000, 80_000)), rule.clone(), &[]));
-            v.push(job("export-deep", JobKind::Fixed { cases: key_deep_cases(id, !q, true, true), stop_on_first: false }, Rule::any("a structure with a root-to-leaf path of >= 33 nodes", &["height_ge_33"]), &["height_ge_33"]));
+            v.push(job("export-deep", JobKind::Fixed { cases: key_deep_cases(id, !q, true, true), stop_on_first: false }, Rule::any("a structure with a root-to-leaf path of >= 33 nodes", &["height_ge_33"]), &[]));
             v.push(job("export-huge", random(key_huge_cases(id, "tree", [40, 4, 4, 4, 4, 16, 0, 0], 270_000, true), n(3, 60)), Rule::any("a structure of >=4096 entries built by a bulk fill", &["stored_ge_4096"]), &["stored_ge_4096"]));
             v.push(job("export-random-list", random(key_cases(id, key_mix("list", &[16, 64, 400], 40, 6, [60, 4, 4, 4, 4, 16, 1, 0], 0..=600, Some(0..=30))), n(1_500, 40_000)), rule, &[]));
         }
@@ -736,7 +736,7 @@ pub fn jobs(pn: u32, tier: Tier) -> Vec<Job> {
             v.push(job("key-list-look-churn-look", JobKind::Fixed { cases: key_period_cases(id, "list", !q), stop_on_first: false }, Rule::any("two looks at one key with the slot it was found in turned over in between", &["sparse_observations", "reinsert_expired_key", "lookup_after_removal", "query_with_expired_copies"]), &[]));
             v.push(job("key-tree-sparse-observations", random(key_sparse_cases(id, "tree"), n(300, 8_000)), Rule::any("a history of >=600 operations in which observations are >=100 operations apart", &["sparse_observations"]), &["sparse_observations"]));
             v.push(job("key-list-sparse-observations", random(key_sparse_cases(id, "list"), n(200, 5_000)), Rule::any("a history of >=600 operations in which observations are >=100 operations apart", &["sparse_observations"]), &["sparse_observations"]));
-            v.push(job("key-tree-deep", JobKind::Fixed { cases: key_deep_cases(id, !q, true, false), stop_on_first: false }, Rule::any("a structure with a root-to-leaf path of >= 33 nodes", &["height_ge_33"]), &["height_ge_33"]));
+            v.push(job("key-tree-deep", JobKind::Fixed { cases: key_deep_cases(id, !q, true, false), stop_on_first: false }, Rule::any("a structure with a root-to-leaf path of >= 33 nodes", &["height_ge_33"]), &[]));
             v.push(job("key-tree-huge", random(key_huge_cases(id, "tree", [30, 6, 6, 6, 8, 16, 0, 1], 140_000, true), n(2, 30)), Rule::any("a structure of >=4096 entries built by a bulk fill", &["stored_ge_4096"]), &["stored_ge_4096"]));
             v.push(job("key-list-huge", random(key_huge_cases(id, "list", [30, 6, 6, 6, 8, 16, 0, 1], 70_000, true), n(1, 20)), Rule::any("a structure of >=4096 entries built by a bulk fill", &["stored_ge_4096"]), &["stored_ge_4096"]));
             v.push(job("key-tree-enum", JobKind::Enumerate { spec: key_enum(id, "tree", 3, 2, if q { 3 } else { 3 }, true, false, 1_500_000) }, rule.clone(), &[]));
